@@ -164,6 +164,7 @@ impl Sink for JobSink<'_> {
             smp.push(j);
         }
         if let Some(kind) = judge(&case.expect, &out) {
+            let kind = refine_kind(kind, &case.expect, &out);
             // determinism: the same case must give the same verdict again
             let again = execute(self.router, self.entry, case.channel, &case.wire, case.content_type.as_deref());
             if again != out {
@@ -205,10 +206,33 @@ impl Sink for JobSink<'_> {
 /// one group so that one defect gives very few keys.
 fn key_group(base: &str) -> &str {
     match base {
+        "long-parse-error" => "parse-error",
+        "long-invalid-utf8" => "invalid-utf8",
         "invalid-utf8" | "content-type" | "sequence" | "sequence-malformed" | "repeated-scalar-key"
         | "trailing-garbage" | "malformed-json" | "missing-field" | "empty-segment" | "unsupported-seq" => base,
         _ => "roundtrip",
     }
+}
+
+/// A wrong error whose only flaw is that the echoed value is a shortened form of the documented
+/// one gets its own kind.
+fn refine_kind(kind: &'static str, exp: &Expect, out: &Outcome) -> &'static str {
+    if kind != "wrong-error" {
+        return kind;
+    }
+    let Outcome::Err(e) = out else { return kind };
+    let Some(got) = &e.value else { return kind };
+    for p in &exp.err {
+        if let Some(want) = &p.value {
+            let mut relaxed = p.clone();
+            relaxed.value = None;
+            let stem = got.trim_end_matches("...").trim_end_matches('…');
+            if relaxed.matches(e) && got != want && got.len() < want.len() + 4 && want.starts_with(stem) && stem.len() < want.len() {
+                return "value-truncated";
+            }
+        }
+    }
+    kind
 }
 
 fn describe_pat(p: &val::ErrPat) -> String {
@@ -278,6 +302,7 @@ fn run_job(router: &matchit::Router<u32>, e: &Entry, ch: Channel, sub: usize, b:
     };
     match (ch, kind_of(e)) {
         (Channel::Json, Kind::Single) => {
+            cases::gen_length_json(e, &mut sink);
             cases::gen_single_json(e, b, &mut sink);
             if e.name == "XString" {
                 cases::gen_content_types(ch, e, &mut sink);
@@ -287,6 +312,7 @@ fn run_job(router: &matchit::Router<u32>, e: &Entry, ch: Channel, sub: usize, b:
         (Channel::Json, Kind::Wide) => cases::gen_wide_json(e, &mut sink),
         (Channel::Json, Kind::Seq) => cases::gen_seq_json(e, b, &mut sink),
         (_, Kind::Single) => {
+            cases::gen_length_text(ch, e, &mut sink);
             cases::gen_single_text(ch, e, b, &mut sink);
             if ch == Channel::Form && e.name == "XString" {
                 cases::gen_content_types(ch, e, &mut sink);
@@ -443,7 +469,7 @@ fn main() {
              `+` for space in query/form, a stray literal `%`}}; JSON: {{literal, \\uXXXX upper, \\uXXXX lower, short escape}}; edge literals: \
              minimal, all-escaped upper/lower, each single position escaped. Field `a` of the 3-field target up to length {ml} (JSON: min({ml},2)), `b` up to 1, `c` in {{0, 25, u32::MAX, u32::MAX+1, a}} minimal and (for `a` up to length 2) fully escaped; \
              sequences up to {ql} repetitions in every interleaving with the scalar key. \
-             Malformed: 10 percent-encoded invalid UTF-8 byte strings (+3 raw ones for forms), truncated/stray `%`, wrong type, out-of-range \
+             LENGTH dimension (every single-field target, every channel): filler `a` of every length cap-2..=cap+2 for cap in {{16,32,64,128,256,1024}} followed by each of {{nothing, e-acute (2 bytes), euro sign (3 bytes), U+1D11E (4 bytes)}} and tail {{zz, nothing}}, plus a 3-byte-character filler of every count around cap/3 (a multi-byte character at every byte offset around each cap), each {{literal, non-ASCII escaped, fully escaped}}: string-like fields must round-trip, parsed fields must give the documented error whose `value` is the FULL decoded value (ParseErrorAtKey docs: `The value from the URI`), same windows with trailing invalid UTF-8 (error must echo the whole raw segment). Malformed: 10 percent-encoded invalid UTF-8 byte strings (+3 raw ones for forms), truncated/stray `%`, wrong type, out-of-range \
              numbers, missing field, repeated scalar key, 19 malformed JSON documents, {nct} content-type headers. \
              Oracle (reference model in refmodel.rs): value after exactly ONE percent-decoding bound to the field of the same NAME \
              (strings verbatim, numbers/bools by an independent digit parser, sequences in order); canonical literals must succeed, \
